@@ -3,7 +3,27 @@
 import json, os, subprocess
 ROOT = os.path.dirname(os.path.dirname(os.path.abspath(__file__)))
 
+SEQ_NOTE = ("Bounded worlds of spec/MC_World.tla (<= 9 keys, <= 5 files); behaviours exhaustive up to the stated length and TLC-simulated "
+            "beyond; the client is sequential (concurrency is C01/C07/C08's); observation is through the public API plus the "
+            "cfg-guarded hooks for synchronisation only.")
+
 CHECKS = {
+ "C02": dict(
+  category="model_checking",
+  text="AssetCache.tla is the reference map; TLC checks its frame laws on every state of the bounded world, and every behaviour it "
+       "generates (all call sequences up to length 3-4, simulated to length 10) is replayed on six front-ends of the real crate with "
+       "every return value and the whole cache contents compared after every step.",
+  design="5/C02", note=SEQ_NOTE,
+  technique="TLA+ spec AssetCache.tla checked by TLC; spec->code replay of TLC-generated call sequences on all front-ends",
+ ),
+ "C03": dict(
+  category="model_checking",
+  text="The law of load_from_source/ErrorKind::or is stated declaratively (LoadFold.tla) and checked by TLC against the interpreter for "
+       "every (leaf type, contents) assignment; the same interpreter generates every content assignment over 4 extensions x 9 keys and "
+       "break/repair edit orders, each replayed on the real crate comparing value, error id chain, error class and surviving extension.",
+  design="5/C03", note=SEQ_NOTE + " Byte contents are opaque in the spec; byte fidelity is exercised by a seeded concretisation corpus.",
+  technique="TLA+ spec LoadFold.tla/AMTypes.tla checked by TLC; exhaustive spec->code replay; byte-level concretisation of the crate's own loaders",
+ ),
  "C18": dict(
   category="model_checking",
   text="TLC exhausts every interleaving of 3 concurrent update/load callers (and 2 callers of all public operations) on the "
